@@ -400,6 +400,22 @@ def rule_member(F, rep):
             rep.violation(R, "do_std_set_member_slice|probe", "probe for [%d, %d] is %s, expected mid=%d" % (st_, en, sorted(map(str, mids)), want), sl.loc)
 
 
+def rule_pivot(F, rep):
+    R = rep.rule("C17.R3", "the partition of std.sort is stable because its pivot is the first element of the slice: the step "
+                 "that starts a partition (do_std_sort_quick_sort_1) does not move any element (no swap / set on the permutation "
+                 "cells) and hands the slice's first index on as the pivot")
+    fn = F.fn("<%s>::do_std_sort_quick_sort_1" % E)
+    rep.fn(fn)
+    moved = [(callee_name(t) or "", fn.body.span(t["sp"])) for _, t in fn.body.calls()
+             if (callee_name(t) or "") in ("<core::cell::Cell>::swap", "<core::cell::Cell>::set", "<core::cell::Cell>::replace",
+                                           "<[T]>::swap", "core::mem::swap")]
+    ok = not moved
+    rep.ob(R, "quick_sort_1|no-permutation", ok, {"moving_calls": [m[0] for m in moved]})
+    for n, site in moved:
+        rep.violation(R, "do_std_sort_quick_sort_1|moves-elements", "do_std_sort_quick_sort_1 calls %s before partitioning: with a "
+                      "pivot other than the first element, elements equal to it change their relative order" % n, site)
+
+
 def run(F, rep, tier):
     R = rep.rule("C17.R1", "tie-break / advance decision tables of merge, partition, minArray, maxArray and the set "
                  "walks equal the ones the contracts require (stability, first-minimal/maximal, union/inter/diff)")
@@ -409,6 +425,7 @@ def run(F, rep, tier):
     rule_sets(F, rep, R)
     rep.floor(R, rep.rules[R]["obligations"], 20, "table rows")
     rule_member(F, rep)
+    rule_pivot(F, rep)
     from . import c08
     c08.rule_r4(F, rep)      # the ordering primitive the sort/set walks pop their `Ordering` from: array state machines
     c08.rule_r4b(F, rep)
